@@ -70,6 +70,10 @@ fn vocab(rng: &mut Rng) -> Vec<Vec<u8>> {
         .collect()
 }
 
+fn pickv<'a>(rng: &mut Rng, v: &'a [Vec<u8>]) -> &'a [u8] {
+    &v[rng.usize_below(v.len())]
+}
+
 fn text_string(rng: &mut Rng, vocab: &[Vec<u8>], maxw: usize) -> Vec<u8> {
     let w = rng.urange(0, maxw);
     let mut s = vec![];
@@ -77,7 +81,7 @@ fn text_string(rng: &mut Rng, vocab: &[Vec<u8>], maxw: usize) -> Vec<u8> {
         if i > 0 {
             s.push(b' ');
         }
-        s.extend_from_slice(rng.pick(vocab));
+        s.extend_from_slice(pickv(rng, vocab));
     }
     s
 }
@@ -178,7 +182,7 @@ pub fn gen_fsst(rng: &mut Rng, kind: &'static str, scale: u32) -> FsstCase {
                     } else {
                         let mut s = vec![];
                         while s.len() < l {
-                            s.extend_from_slice(rng.pick(&v));
+                            s.extend_from_slice(pickv(rng, &v));
                         }
                         s
                     }
@@ -227,7 +231,7 @@ pub fn gen_fsst(rng: &mut Rng, kind: &'static str, scale: u32) -> FsstCase {
                 } else {
                     let mut s = vec![];
                     while s.len() < l {
-                        s.extend_from_slice(r.pick(&v));
+                        s.extend_from_slice(pickv(r, &v));
                     }
                     s.truncate(l);
                     s
